@@ -32,7 +32,9 @@ def _messages():
     m['@state'] = ('GET', '/v1/peer/<ip>/state', None)
     m['HALF'] = m['UPD'][:25]
     from .alphabet import simple_update
-    m['UPD_AS2'] = simple_update(65002, as4=False)      # 2-octet AS_PATH: what a peer without the 4-octet capability sends
+    m['UPD_AS2'] = simple_update(65002, as4=False)
+    from .alphabet import peer_caps, PEER_ID
+    m['OPEN_OK_ID2'] = wire.open_msg(65002, 90, PEER_ID + 0x01000000, peer_caps())      # the peer changed its router id      # 2-octet AS_PATH: what a peer without the 4-octet capability sends
     return m
 
 
@@ -42,7 +44,7 @@ SCENARIO = [
     ('RX', 0, 'HALF'), ('PEER_CLOSE', 0),
     ('TICK', 0), ('CONN_OK', 0), ('RX', 0, 'OPEN_OK'), ('RX', 0, 'KA'), ('RX', 0, 'UPD'), ('REST', 'send_update2'), ('REST', 'stat'),
     ('RX', 0, 'BAD_MARKER'), ('CLOSE_DONE', 0),
-    ('TICK', 0), ('CONN_OK', 0), ('RX', 0, 'OPEN_OK'), ('RX', 0, 'KA'), ('RX', 0, 'UPD'), ('REST', 'stat'), ('REST', 'state'),
+    ('TICK', 0), ('CONN_OK', 0), ('RX', 0, 'OPEN_OK_ID2'), ('RX', 0, 'KA'), ('RX', 0, 'UPD'), ('REST', 'stat'), ('REST', 'state'),
     # session 4: the peer comes back without any capability (2-octet AS numbers): what sessions 1-3 negotiated is gone
     ('PEER_CLOSE', 0), ('TICK', 0), ('CONN_OK', 0), ('RX', 0, 'OPEN_NOOPT'), ('RX', 0, 'KA'), ('RX', 0, 'UPD_AS2'), ('REST', 'state'),
 ]
@@ -88,7 +90,8 @@ def _run(cfg):
         # sessions 2 and 3 get the same handshake bytes: same observations, step by step (CONN_OK, OPEN, KA, UPD)
         for k in range(1, 5):
             x, y = a[s2 + k], a[s3 + k]
-            if (x[1], x[2]) != (y[1], y[2]):
+            # (the OPEN of session 3 carries another BGP identifier: the report of it differs in that field, nothing else may)
+            if (tuple(e[:2] for e in x[1]), x[2]) != (tuple(e[:2] for e in y[1]), y[2]):
                 v.append(('session-independence|the same handshake is handled differently in a later session of the same agent',
                           {'step_in_session': k, 'event': x[0], 'session_2': repr(x[1:3])[:500], 'session_3': repr(y[1:3])[:500]}))
                 break
@@ -105,7 +108,7 @@ def _run(cfg):
     return v, len(a) + len(b)
 
 
-CONFIGS = [{}, {'rib': True}]
+CONFIGS = [{}, {'rib': True}, {'local_as': 4200000001, 'hold': 30}]
 
 
 def run(prop):
